@@ -320,12 +320,13 @@ def rec_case(usx, root):
 def mutate_table(rng, case_text):
     """change the client's behaviour on one recorded question: error, not found, drop, shorten, reverse"""
     c = parse_sx(case_text)
+    c[0] = 3 * c[0] + 100        # a changed answer may lead to a larger tree than the recorded one
     which = rng.choice([2, 3, 4, 4])
     tbl = c[which]
     if not tbl:
         return None
     i = rng.randrange(len(tbl))
-    how = rng.choice(["err", "nf", "drop", "short", "rev", "dup"])
+    how = rng.choice(["err", "nf", "drop", "short", "short", "short", "rev", "rev", "rev", "dup", "dup"])
     if how == "err":
         tbl[i] = [tbl[i][0], [b"err"]]
     elif how == "nf":
@@ -351,6 +352,20 @@ def run(ctx):
     classes = known_classes()
     replay_known(ctx)
     n_uni = ctx.scale(400, 30000)
+    n_mut = ctx.scale(3000, 60000)
+    batch = 500                       # bounded memory: universes are processed in batches
+    done = 0
+    timeouts = []
+    while done < n_uni:
+        b = min(batch, n_uni - done)
+        run_batch(ctx, rng, K, classes, b, max(1, n_mut * b // n_uni), timeouts, done)
+        done += b
+    if timeouts:
+        ctx.notes.append("resolutions cut off by the context deadline (the install loop did not finish; see N-C06-3): "
+                         "%d roots; first: %s" % (ctx.dist.get("root:timeout", 0), timeouts[0][:300]))
+
+
+def run_batch(ctx, rng, K, classes, n_uni, n_mut, timeouts, base):
     unis, cases, meta = [], [], []
     for ui in range(n_uni):
         with_derived = rng.random() < 0.15
@@ -369,7 +384,7 @@ def run(ctx):
     ctx.count("universes:with_alias", sum(1 for u in unis if u[3]))
     out = ctx.impl("npm_rec", cases)
 
-    table_cases, obs1, timeouts = [], [], []
+    table_cases, obs1 = [], []
     for (ui, root), line, rc in zip(meta, out, cases):
         verdict, case_text, obs = split_rec(line)
         status, has_derived, viols, stats = verdict
@@ -384,18 +399,21 @@ def run(ctx):
                            (st["edge:reuse"] > 0 and (st["nodeerr:1"] + st["nodeerr:2"] + st["nodeerr:3"] > 0 or
                                                       st["pick:latest"] + st["pick:skip-deprecated"] > 0)))
             if interesting:
-                ctx.nontriv((ui, root))
+                ctx.nontriv((base + ui, root))
             if st["nested"] > 0 and len(ctx.samples) < 3:
                 ctx.sample({"kind": "npm_rec", "root": "%s@%s" % root, "universe": unis[ui][1][:600],
                             "observable": obs[:400]})
         for clause, detail in viols:
             clause, detail = clause.decode(), detail.decode()
             kf = classes.get(clause)
-            v = {"what": "C06 clause %s fails on the implementation: %s" % (clause, detail),
-                 "input": {"kind": "npm_rec", "arg": rc}, "observed": obs[:2000], "required": clause}
-            ctx.violation(v["what"], v["input"], v["observed"], v["required"])
-            if kf:
-                ctx.violations[-1]["known"] = kf
+            if kf or len(ctx.violations) < 2000:
+                ctx.violation("C06 clause %s fails on the implementation: %s" % (clause, detail),
+                              {"kind": "npm_rec", "arg": rc}, obs[:2000], clause)
+                if kf:
+                    ctx.violations[-1]["known"] = kf
+                    ctx.violations[-1]["input"] = {"kind": "npm_rec", "arg": rc[:200] + "..."}
+            else:
+                ctx.count("violations_not_stored")
         if status == "timeout":
             # the install loop was still running when the context expired (non-termination is not part of C06)
             if len(timeouts) < 3:
@@ -414,7 +432,6 @@ def run(ctx):
             if bad <= 5:
                 ctx.divergence("npm (table client does not replay the recording)", ct, o2, o1)
     # ... and on mutated tables: arbitrary client behaviour (errors, shortened or reordered answers)
-    n_mut = ctx.scale(3000, 60000)
     muts = []
     tries = 0
     while len(muts) < n_mut and tries < 4 * n_mut and table_cases:
